@@ -263,7 +263,11 @@ func (s *session) battery2(r *run, rnd interface{ Intn(int) int }, g, w *gen.EG,
 	}
 	for i := 0; i < 2; i++ {
 		addr, val, f, op := pick(), rnd.Intn(n), rnd.Intn(3)-1, rnd.Intn(2)
-		if !okArgs(addr, val) {
+		// LoadField with several pointees is order dependent in the Go code itself: the weak
+		// assignments of earlier pointees can raise the status of later ones, which decides whether
+		// EnsureLoadNode gives them a load node, and the history look-up sees the load nodes of
+		// earlier pointees. Only single-pointee loads have one result.
+		if !okArgs(addr, val) || len(g.Pointees(addr)) > 1 {
 			continue
 		}
 		gn, wn := fmt.Sprintf("gld%d", i), fmt.Sprintf("wld%d", i)
